@@ -288,3 +288,103 @@ pub fn best<'a>(a: &'a str, b: &'a str, letter_ascii: bool) -> &'a str {
         b
     }
 }
+
+// ---------------- PLIST (C14, C15) ----------------
+use pkgsrc::plist::{PlistEntry, PlistOption};
+use std::ffi::OsString;
+use std::os::unix::ffi::OsStringExt;
+
+pub fn is_ws(b: u8) -> bool {
+    b == 32 || (9..=13).contains(&b)
+}
+fn os(b: &[u8]) -> OsString {
+    OsString::from_vec(b.to_vec())
+}
+/// C14: what parsing one line alone gives (None = error)
+pub fn plist_entry(line: &[u8]) -> Option<PlistEntry> {
+    let sp = line.iter().position(|&c| c == b' ');
+    let cmd: &[u8] = match sp {
+        Some(i) => &line[..i],
+        None => line,
+    };
+    let arg: Option<&[u8]> = match sp {
+        Some(i) if i > 0 && i + 1 < line.len() => {
+            let mut k = i;
+            while k < line.len() && is_ws(line[k]) {
+                k += 1;
+            }
+            if k == line.len() {
+                None
+            } else {
+                Some(&line[k..])
+            }
+        }
+        _ => None,
+    };
+    if cmd.first() != Some(&b'@') {
+        return Some(PlistEntry::File(os(line)));
+    }
+    let utf8 = |a: &[u8]| String::from_utf8(a.to_vec()).ok();
+    match cmd {
+        b"@cwd" | b"@src" | b"@cd" => arg.map(|a| PlistEntry::Cwd(os(a))),
+        b"@exec" => arg.map(|a| PlistEntry::Exec(os(a))),
+        b"@unexec" => arg.map(|a| PlistEntry::UnExec(os(a))),
+        b"@option" => match arg {
+            Some(b"preserve") => Some(PlistEntry::PkgOpt(PlistOption::Preserve)),
+            _ => None,
+        },
+        b"@mode" => match arg {
+            None => Some(PlistEntry::Mode(None)),
+            Some(a) => utf8(a).map(|s| PlistEntry::Mode(Some(s))),
+        },
+        b"@owner" => match arg {
+            None => Some(PlistEntry::Owner(None)),
+            Some(a) => utf8(a).map(|s| PlistEntry::Owner(Some(s))),
+        },
+        b"@group" => match arg {
+            None => Some(PlistEntry::Group(None)),
+            Some(a) => utf8(a).map(|s| PlistEntry::Group(Some(s))),
+        },
+        b"@comment" => Some(PlistEntry::Comment(arg.map(os))),
+        b"@ignore" => match arg {
+            None => Some(PlistEntry::Ignore),
+            Some(_) => None,
+        },
+        b"@name" => arg.and_then(utf8).map(PlistEntry::Name),
+        b"@pkgdep" => arg.and_then(utf8).map(PlistEntry::PkgDep),
+        b"@blddep" => arg.and_then(utf8).map(PlistEntry::BldDep),
+        b"@pkgcfl" => arg.and_then(utf8).map(PlistEntry::PkgCfl),
+        b"@pkgdir" => arg.map(|a| PlistEntry::PkgDir(os(a))),
+        b"@dirrm" => arg.map(|a| PlistEntry::DirRm(os(a))),
+        b"@display" => arg.map(|a| PlistEntry::Display(os(a))),
+        _ => None,
+    }
+}
+/// C14: one entry per line containing a non-whitespace byte (None = some line is an error)
+pub fn plist_entries(text: &[u8]) -> Option<Vec<PlistEntry>> {
+    let mut out = vec![];
+    for line in text.split(|&c| c == b'\n') {
+        if line.iter().any(|&c| !is_ws(c)) {
+            out.push(plist_entry(line)?);
+        }
+    }
+    Some(out)
+}
+/// C15: kept files (index list)
+pub fn kept_files(es: &[PlistEntry]) -> Vec<usize> {
+    let mut ignore = false;
+    let mut out = vec![];
+    for (i, e) in es.iter().enumerate() {
+        match e {
+            PlistEntry::Ignore => ignore = true,
+            PlistEntry::File(_) => {
+                if !ignore {
+                    out.push(i);
+                }
+                ignore = false;
+            }
+            _ => {}
+        }
+    }
+    out
+}
